@@ -108,3 +108,85 @@ func (o *Once) Do(f func()) {
 		f()
 	}
 }
+
+// Pool: a LIFO free list (one of the behaviours the real Pool may show; it never drops items).
+type Pool struct {
+	New   func() any
+	items []any
+}
+
+func (p *Pool) Get() any {
+	zzrt.Point()
+	if n := len(p.items); n > 0 {
+		x := p.items[n-1]
+		p.items = p.items[:n-1]
+		zzrt.HBAcquire(p)
+		return x
+	}
+	if p.New != nil {
+		return p.New()
+	}
+	return nil
+}
+
+func (p *Pool) Put(x any) {
+	zzrt.Point()
+	p.items = append(p.items, x)
+	zzrt.HBRelease(p)
+}
+
+// Map: a mutex-protected map with the method set of sync.Map.
+type Map struct {
+	mu Mutex
+	m  map[any]any
+}
+
+func (m *Map) Load(k any) (any, bool) {
+	m.mu.Lock()
+	defer m.mu.Unlock()
+	v, ok := m.m[k]
+	return v, ok
+}
+
+func (m *Map) Store(k, v any) {
+	m.mu.Lock()
+	defer m.mu.Unlock()
+	if m.m == nil {
+		m.m = map[any]any{}
+	}
+	m.m[k] = v
+}
+
+func (m *Map) LoadOrStore(k, v any) (any, bool) {
+	m.mu.Lock()
+	defer m.mu.Unlock()
+	if m.m == nil {
+		m.m = map[any]any{}
+	}
+	if old, ok := m.m[k]; ok {
+		return old, true
+	}
+	m.m[k] = v
+	return v, false
+}
+
+func (m *Map) Delete(k any) {
+	m.mu.Lock()
+	defer m.mu.Unlock()
+	delete(m.m, k)
+}
+
+func (m *Map) Range(f func(k, v any) bool) {
+	m.mu.Lock()
+	keys := make([]any, 0, len(m.m))
+	for k := range m.m {
+		keys = append(keys, k)
+	}
+	m.mu.Unlock()
+	for _, k := range keys {
+		v, ok := m.Load(k)
+		if ok && !f(k, v) {
+			return
+		}
+	}
+}
